@@ -742,6 +742,9 @@ namespace fixedmath
     else if( ulo < (1<<16) )
       {
       int lshbits{ std::max(cxx20::countl_zero( uhi ) - 30,0) >> 1 };
+      //uhi*uhi+ulo*ulo must fit 64 bits, it does not when uhi << lshbits is just below 2^32
+      if( (uhi << lshbits) >= (1ull<<31) )
+        --lshbits;
       uhi <<= lshbits;
       ulo <<= lshbits;
       return as_fixed( sqrt( as_fixed( (uhi*uhi+ulo*ulo)>>prec_) ).v  >> lshbits);
